@@ -240,6 +240,10 @@ impl<T: RealNumber + Sum, D: Distance<Vec<T>, T>> DBSCAN<T, D> {
         for i in 0..n {
             x.copy_row_as_vec(i, &mut row);
             let neighbors = self.knn_algorithm.find_radius(&row, self.eps)?;
+            if neighbors.is_empty() {
+                result.set(0, i, -T::one());
+                continue;
+            }
             let mut label = vec![0usize; self.num_classes + 1];
             for neighbor in neighbors {
                 let yi = self.cluster_labels[neighbor.0];
